@@ -900,6 +900,30 @@ func (e *Engine) hashUF(kind string, in []Value, outBytes int) []Value {
 		for i := range out {
 			out[i] = intV(uint64(sum[i]))
 		}
+		if len(in) > 0 && len(in) <= 8 {
+			// remember the application so that a later symbolic application of
+			// the same length agrees with it (and, for FNV, differs elsewhere)
+			name := fmt.Sprintf("%s_%d", kind, len(in))
+			var av uint64
+			for _, b := range buf {
+				av = av<<8 | uint64(b)
+			}
+			arg := e.tt.Const(av, uint16(8*len(in)))
+			var res *Term
+			for i := 0; i < outBytes; i += 8 {
+				var w uint64
+				for j := i; j < i+8; j++ {
+					w = w<<8 | uint64(sum[j])
+				}
+				c := e.tt.Const(w, 64)
+				if res == nil {
+					res = c
+				} else {
+					res = e.tt.Concat(res, c)
+				}
+			}
+			e.relateUF(kind, name, arg, res)
+		}
 		return out
 	}
 	var arg *Term
@@ -913,32 +937,40 @@ func (e *Engine) hashUF(kind string, in []Value, outBytes int) []Value {
 	}
 	name := fmt.Sprintf("%s_%d", kind, len(in))
 	res := e.tt.UF(name, arg, uint16(outBytes*8))
-	if kind == "fnv128a" {
-		// FNV-128a is assumed collision-free among the (few, short) keys of one
-		// run: distinct arguments give distinct hashes.
-		for _, prev := range e.ps.ufApps[name] {
-			if prev[0] != arg {
-				e.assumeTerm(e.tt.Or(e.tt.Eq(prev[0], arg), e.tt.Not(e.tt.Eq(prev[1], res))))
-			}
-		}
-		apps := e.ps.ufApps[name]
-		seen := false
-		for _, p := range apps {
-			if p[0] == arg {
-				seen = true
-			}
-		}
-		if !seen {
-			old := apps
-			e.ps.ufApps[name] = append(append([][2]*Term(nil), apps...), [2]*Term{arg, res})
-			e.trail = append(e.trail, trailEntry{fn: func() { e.ps.ufApps[name] = old }})
-		}
-	}
+	e.relateUF(kind, name, arg, res)
 	for i := range out {
 		hi := uint16((outBytes-i)*8 - 1)
 		out[i] = Value{T: e.tt.Extract(res, hi, hi-7)}
 	}
 	return out
+}
+
+// relateUF records a hash application and ties it to the earlier ones of the
+// same length: an application on a concrete argument is the real digest, so a
+// symbolic application must agree with it when the arguments are equal; and
+// FNV-128a is assumed collision-free among the (few, short) keys of one run:
+// distinct arguments give distinct hashes.
+func (e *Engine) relateUF(kind, name string, arg, res *Term) {
+	apps := e.ps.ufApps[name]
+	for _, p := range apps {
+		if p[0] == arg {
+			return
+		}
+	}
+	for _, prev := range apps {
+		if prev[0].IsConst() && arg.IsConst() {
+			continue
+		}
+		if prev[0].IsConst() || arg.IsConst() {
+			e.assumeTerm(e.tt.Or(e.tt.Not(e.tt.Eq(prev[0], arg)), e.tt.Eq(prev[1], res)))
+		}
+		if kind == "fnv128a" {
+			e.assumeTerm(e.tt.Or(e.tt.Eq(prev[0], arg), e.tt.Not(e.tt.Eq(prev[1], res))))
+		}
+	}
+	old := apps
+	e.ps.ufApps[name] = append(append([][2]*Term(nil), apps...), [2]*Term{arg, res})
+	e.trail = append(e.trail, trailEntry{fn: func() { e.ps.ufApps[name] = old }})
 }
 
 type blobEntry struct {
